@@ -61,9 +61,9 @@ def load_known(prop_id):
 
 
 def write_replay(mod, plan, v):
-  from vf.boot import VERIF_DIR
+  from vf.boot import OUT_DIR
   from vf.evidence import fp
-  d = os.path.join(VERIF_DIR, 'replays')
+  d = os.path.join(OUT_DIR, 'replays')
   os.makedirs(d, exist_ok=True)
   path = os.path.join(d, '%s-%s.json' % (mod.ID, fp(plan)[:8]))
   with open(path, 'w') as f:
@@ -268,7 +268,8 @@ def run_sharded(mod, tier, seed, nshards, args):
   from vf.evidence import merge_partials, write_evidence
   from vf.world import Violation
   t0 = time.perf_counter()
-  pdir = os.path.join(VERIF_DIR, 'evidence', '.partial-%s-%d' % (mod.ID, os.getpid()))
+  from vf.boot import OUT_DIR
+  pdir = os.path.join(OUT_DIR, 'evidence', '.partial-%s-%d' % (mod.ID, os.getpid()))
   os.makedirs(pdir, exist_ok=True)
   procs = []
   env = dict(os.environ)
